@@ -142,13 +142,29 @@ def Labels.fromBytes (data : Option Bytes) : Res Labels :=
   | .err => .err
   | .panic => .panic
 
-/-- `(*Labels).ToBytes()` -/
-def Labels.toBytes (l : Labels) : Res Bytes :=
+/-- `(*Labels).ToBytes()`, panic-aware: a panic of the inner
+`labelsFromBytes` would propagate (theorem `C19_toBytes_total`: it never does,
+and the result is `.ok l.toBytes`). -/
+def Labels.toBytesR (l : Labels) : Res Bytes :=
   match labelsFromBytes (goBytes l.original) with
   | .panic => .panic
   | .err => .ok (goBytes l.original)
   | .ok originalLabels =>
     if l.original ≠ none ∧ originalLabels = l.labels then .ok (goBytes l.original)
     else .ok (labelsToBytes l.labels)
+
+/-- `(*Labels).ToBytes()` as a plain function (for the codecs that embed label
+sets): re-parse `original`; if that fails, or `original` is non-nil and its
+names are still `labels`, return `original`; otherwise encode `labels`.
+`toBytesR l = .ok (toBytes l)` for every `l` (`C19_toBytes_total`). -/
+def Labels.toBytes (l : Labels) : Bytes :=
+  match labelsFromBytes (goBytes l.original) with
+  | .ok originalLabels =>
+    if l.original ≠ none ∧ originalLabels = l.labels then goBytes l.original
+    else labelsToBytes l.labels
+  | _ => goBytes l.original
+
+/-- `rfc1035label.FromBytes(data)` on a non-nil slice. -/
+def fromBytes (data : Bytes) : Res Labels := Labels.fromBytes (some data)
 
 end Dhcp.Label
